@@ -118,6 +118,27 @@ example : VefGroups (List.replicate 80 5) [128 + 80, 5] := by
   simpa using this
 
 
+/-- **squashed VEF, the two 4-colour types** (640x200x4: 80-byte rows; 320x200x4: 40-byte rows) -/
+theorem vef_squashed_transparent_4 (t : Nat) (pal px : List Nat) (rows : List (List Nat × List Nat))
+    (ht : t = 1 ∨ t = 3) (hpal : pal.length = 16)
+    (hpx : px.length = if t = 1 then 128000 else 64000) (hlt : ∀ p ∈ px, p < 4)
+    (hn : rows.length = 400) (hrows : RowsOK (if t = 1 then 80 else 40) rows)
+    (himg : (rows.map (·.1)).flatten = packQuad px) :
+    vef (128 :: t :: (pal ++ encRecs rows))
+      = .ok { width := if t = 1 then 640 else 320, height := 200, bitmap := px.map (fun p => pal.getD p 0) } := by
+  have hl : (128 :: t :: pal).length = 18 := by simp [hpal]
+  have htk : List.take 16 (pal ++ encRecs rows) = pal := by rw [← hpal]; simp
+  have hd : (128 :: t :: pal) ++ encRecs rows = 128 :: t :: (pal ++ encRecs rows) := by simp
+  rcases ht with rfl | rfl
+  · have hb := vefBitmap4 pal hpal 7 (Or.inl rfl) 32000 px (by simp at hpx; omega) hlt
+    have hrec := vefRecords_rows 80 rows (by simpa using hrows) (128 :: 1 :: pal)
+    rw [hn, hl, himg, hd] at hrec
+    simp [vef, htk, hrec, hb, bind, Except.bind, pure, Except.pure]
+  · have hb := vefBitmap4 pal hpal 6 (Or.inr rfl) 16000 px (by simp at hpx; omega) hlt
+    have hrec := vefRecords_rows 40 rows (by simpa using hrows) (128 :: 3 :: pal)
+    rw [hn, hl, himg, hd] at hrec
+    simp [vef, htk, hrec, hb, bind, Except.bind, pure, Except.pure]
+
 /-! ### RAT escape coding -/
 
 
